@@ -419,7 +419,74 @@ def encode_buffers(ctx):
     ctx.floor("characters encoded into a buffer", n, 2)
 
 
-RULES = [("C13-R1", r1_no_failing_index), ("C13-R2", r2_slice_clamps), ("C13-R4", r4_scan_shape), ("C13-R5", r5_units_and_positions), ("C13-R6", r6_no_arithmetic_panic)]
+WRAPPERS = {
+    # wrapper: (the primitive that defines its result, how it is named in MIR)
+    "len": ("Iterator>::count", "chars().count()"),
+    "to_uppercase": ("<impl char>::to_uppercase", "char::to_uppercase of every character"),
+    # lowercasing is the one case mapping with a context rule (a sigma at the end of a word): str::to_lowercase applies it,
+    # a per-character char::to_lowercase cannot
+    "to_lowercase": ("str::to_lowercase", "str::to_lowercase (with the final-sigma rule)"),
+    "trim": ("core::str::trim", "str::trim"),
+    "to_number": ("core::str::parse", "str::parse::<f64>"),
+    "split": ("core::str::split", "str::split"),
+    "replace": ("builtins::replace::replace", "builtins::replace"),
+    "find": ("builtins::tw::find", "builtins::find"),
+}
+NARROWING = {"next", "nth", "take", "skip", "take_while", "skip_while", "step_by", "filter", "filter_map", "split_terminator", "splitn", "rsplit", "rsplitn",
+             "split_inclusive", "split_once", "rsplit_once", "trim_start", "trim_end", "trim_matches", "trim_start_matches", "trim_end_matches",
+             "strip_prefix", "strip_suffix", "first", "last", "truncate", "pop", "next_back", "rev", "to_ascii_uppercase", "to_ascii_lowercase",
+             "make_ascii_uppercase", "make_ascii_lowercase", "trim_ascii", "split_whitespace", "split_ascii_whitespace", "lines", "dedup"}
+
+
+def r7_thin_wrappers_apply_their_primitive_to_everything(ctx):
+    """The built-ins whose specification is `what the Unicode / IEEE / library primitive says` are thin wrappers: each applies
+    its one primitive to the whole receiver and passes the result on.  Decided per wrapper (and its closures): the primitive
+    is there and takes the wrapper's own parameters; no selecting or narrowing adaptor (first item only, a terminator-dropping
+    split, a one-sided trim, ASCII-only case mapping, ...) sits beside it; and the wrapper has no condition of its own other
+    than iterating - a shortcut that skips the primitive for some inputs is a second specification."""
+    n = 0
+    for name, (prim, text) in sorted(WRAPPERS.items()):
+        fn = ctx.lib.fns.get("builtins::string::StringBuiltin::" + name)
+        if fn is None:
+            ctx.bad("wrapper|%s|missing" % name, "", "StringBuiltin::%s not found" % name)
+            continue
+        ctx.touch(fn)
+        bodies = [fn] + list(ctx.lib.closures_of(fn.id))
+        n += 1
+        uses = False
+        for b in bodies:
+            for c in b.calls():
+                if (c.callee or "").endswith(prim):
+                    uses = True
+                for a in c.args:
+                    if isinstance(a, dict) and "const" in a and str(a["const"]).endswith(prim):
+                        uses = True
+            for blk in (b.blocks[i] for i in b.live):
+                for st in blk["s"]:
+                    if prim in str(st["rv"]):
+                        uses = True
+        narrowing = sorted({(c.callee or "").split("::")[-1] for b in bodies for c in b.calls() if (c.callee or "").split("::")[-1] in NARROWING and not (c.callee or "").startswith(("arena::", "builtins::"))})
+        own = []
+        for b in bodies:
+            for S in sorted(b.live):
+                if b.blocks[S]["t"]["k"] != "switch":
+                    continue
+                d = sh(ne(b.deep(b.blocks[S]["t"]["d"])))
+                if "next(" in d:
+                    continue        # the loop over an iterator
+                own.append(d[:50])
+        if uses and not narrowing and not own:
+            ctx.ok("wrapper|%s" % name, fn.where(), text)
+        elif not uses:
+            ctx.bad("wrapper|%s|primitive-missing" % name, fn.where(), "StringBuiltin::%s no longer applies %s%s" % (name, text, (" (it uses %s)" % ", ".join(narrowing)) if narrowing else ""))
+        elif narrowing:
+            ctx.bad("wrapper|%s|narrowed|%s" % (name, ",".join(narrowing)), fn.where(), "StringBuiltin::%s puts %s beside %s: only a part of what the primitive yields reaches the result (multi-character case mappings cut to their first character, a trailing empty piece dropped, ...)" % (name, ", ".join(narrowing), text))
+        else:
+            ctx.bad("wrapper|%s|own-condition" % name, fn.where(), "StringBuiltin::%s decides `%s` itself before/instead of applying %s: for the inputs on the other side of that condition the result is not what the primitive defines" % (name, own[0], text))
+    ctx.floor("thin string wrappers", n, 8)
+
+
+RULES = [("C13-R1", r1_no_failing_index), ("C13-R2", r2_slice_clamps), ("C13-R4", r4_scan_shape), ("C13-R5", r5_units_and_positions), ("C13-R6", r6_no_arithmetic_panic), ("C13-R7", r7_thin_wrappers_apply_their_primitive_to_everything)]
 
 EXPLANATION = (
     "Thin by design: functional correctness of a hand-written matcher over all string pairs is not decidable here (a "
@@ -438,3 +505,6 @@ EXPLANATION += (
 ASSUMPTIONS = ["memchr returns the first index >= offset of the byte, or the haystack length", "named exceptions in rules/c13.py"]
 TRUSTED = ["rustc nightly MIR", "nsx exporter", "nsverif relational-guard extraction"]
 NONTRIVIAL = "one obligation per index/range site, per clamp clause and per search loop clause"
+EXPLANATION += (
+    ' R7: the built-ins specified as `what the primitive says` are thin wrappers - each applies its one primitive (chars().count(), char::to_uppercase per character, str::to_lowercase with its final-sigma rule, str::trim, str::parse, str::split, builtins::replace, builtins::find) to its own parameters, with no selecting/narrowing adaptor beside it and no condition of its own other than iterating.'
+)
